@@ -35,6 +35,9 @@ func isMacroDefinition(node ast.Node) bool {
 	if !ok {
 		return false
 	}
+	if _, ok = exp.Left.(*ast.Identifier); !ok {
+		return false // a.b = macro... isn't a macro definition (and is reported by the evaluation).
+	}
 	_, ok = exp.Right.(*ast.MacroLiteral)
 	return ok
 }
@@ -100,6 +103,12 @@ func (s *State) ExpandMacros(program ast.Node) ast.Node {
 		}
 
 		evalEnv := extendMacroEnv(macro, args)
+		// Same limits as the evaluation this expansion is part of (a macro body can loop or recurse too).
+		evalEnv.Context = s.Context
+		evalEnv.MaxDepth = s.MaxDepth
+		evalEnv.Out = s.Out
+		evalEnv.LogOut = s.LogOut
+		evalEnv.Extensions = s.Extensions
 
 		evaluated := evalEnv.Eval(macro.Body)
 
